@@ -21,6 +21,7 @@ import copy
 import os
 
 from .. import translate
+from . import normalize
 
 REL = "fairlearn/preprocessing/_correlation_remover.py"
 
@@ -378,7 +379,7 @@ def _doc(s):
 @translate.lifter
 def corr_remover(repo):
     with open(os.path.join(repo, REL)) as f:
-        tree = ast.parse(f.read())
+        tree = normalize.parse(f.read())
     cls = [c for c in tree.body if isinstance(c, ast.ClassDef) and c.name == "CorrelationRemover"]
     if len(cls) != 1:
         _bad("class CorrelationRemover not found")
